@@ -664,10 +664,8 @@ impl Monitor for C20 {
         }
         if first_far_violation.is_some() {
             // (real views stop producing before the first far view runs, and far views run only while nothing was reported)
-            let d = far_dist.first().copied().unwrap_or(0);
-            let _ = d;
             for v in out.iter_mut() {
-                v.detail.push_str(" [on a copy of the pre-state whose adaptive-fee reference was placed far away, both timestamps = now]");
+                v.detail.push_str(&format!(" [on a copy of the pre-state whose adaptive-fee reference was placed far away ({:?} tick groups for the copies of this transaction), both timestamps = now]", far_dist));
             }
         }
         out
